@@ -165,7 +165,7 @@ pub fn c15_x_trace_id_from_value() {
 
 // ---- levels -------------------------------------------------------------------------------
 
-pub const LALPHA: [u8; 18] = *b"iInfodbgeErwWa1 (\x01";
+pub const LALPHA: [u8; 20] = *b"iInfodbgeErwWa1 (\x01\n\t";
 
 fn up(b: u8) -> u8 { if b >= b'a' && b <= b'z' { b - 32 } else { b } }
 fn is_alpha(b: u8) -> bool { (b >= b'a' && b <= b'z') || (b >= b'A' && b <= b'Z') }
@@ -189,11 +189,12 @@ fn word_matches(s: &[u8], w: &[u8]) -> bool {
 
 /// The documented lenient grammar (module docs of `emit::level`).
 pub fn ref_level(raw: &[u8]) -> Option<Level> {
-    // trim ASCII blanks (the alphabet's only whitespace)
+    // trim whitespace at both ends (the alphabet's whitespace: blank, newline, tab)
+    let ws = |c: u8| c == b' ' || c == b'\n' || c == b'\t';
     let mut lo = 0;
     let mut hi = raw.len();
-    while lo < hi && raw[lo] == b' ' { lo += 1; }
-    while hi > lo && raw[hi - 1] == b' ' { hi -= 1; }
+    while lo < hi && ws(raw[lo]) { lo += 1; }
+    while hi > lo && ws(raw[hi - 1]) { hi -= 1; }
     let s = &raw[lo..hi];
     if s.is_empty() { return None; }
     match up(s[0]) {
